@@ -426,6 +426,12 @@ def sym_ceil(x):
     return math.ceil(x)
 
 
+def sym_round(x, n=None):
+    if isinstance(x, SymX):
+        return x.__round__(n)
+    return round(x) if n is None else round(x, n)
+
+
 def sym_floor(x):
     if isinstance(x, SymX):
         return x.__floor__()
@@ -515,6 +521,7 @@ def std_bindings(modules, np_facade=None, shadow_builtins=True, extra=None):
         if shadow_builtins:
             names['float'] = sym_float
             names['int'] = sym_int
+            names['round'] = sym_round
             if 'ceil' in m.__dict__:
                 names['ceil'] = sym_ceil
             if 'math' in m.__dict__:
